@@ -317,13 +317,18 @@ def work_stream(chunk, st):
         if a <= 20:
             cuts = [[data[:c], data[c:]] for c in range(1, len(data))] + [[bytes([x]) for x in data]] + \
                    [[data[:c], data[c:c + 1], data[c + 1:]] for c in range(1, len(data) - 1)]
+            # the same cuts with the receive call in between answered EAGAIN (once, twice): the bytes are not there yet, they are not lost
+            cuts += [[data[:c], 'AGAIN', data[c:]] for c in range(0, len(data))] + [[data[:c], 'AGAIN', 'AGAIN', data[c:]] for c in range(0, len(data), 3)]
         else:
-            cuts = [[data]] + [[data[:c], data[c:]] for c in range(len(d1) - 12, len(d1) + 6)]
+            cuts = [[data]] + [[data[:c], data[c:]] for c in range(len(d1) - 12, len(d1) + 6)] + [['AGAIN', data]] + [[data[:c], 'AGAIN', data[c:]] for c in range(len(d1) - 12, len(d1) + 6, 3)]
         for segs in cuts:
             got = read_stream_by_tool(segs, 2)
-            st.execution(None, outcome=('stream', len(segs) if len(segs) < 4 else 'bytes'), root=('stream', a, b, tuple(len(x) for x in segs[:3]), len(segs)),
-                         nontrivial=('stream', a, b, tuple(len(x) for x in segs[:3]), len(segs)))
-            if got != want:
+            st.execution(None, outcome=('stream', len(segs) if len(segs) < 4 else 'bytes'), root=('stream', a, b, tuple(len(x) for x in segs[:4]), len(segs), 'AGAIN' in segs),
+                         nontrivial=('stream', a, b, tuple(len(x) for x in segs[:4]), len(segs), 'AGAIN' in segs))
+            if got != want and 'AGAIN' in segs:
+                st.violation('stream:own-reader-loses-a-packet-after-EAGAIN', {'payload_lens': [a, b], 'segment_lens': [x if x == 'AGAIN' else len(x) for x in segs[:6]],
+                                                                               'got_types': [str(t) for t, _p in got]})
+            elif got != want:
                 where = 'one-segment' if len(segs) == 1 else 'one-byte-segments' if len(segs) > 3 else \
                     ('cut-in-padding-of-first' if len(d1) - (d1[4]) <= len(segs[0]) < len(d1) else 'cut-elsewhere')
                 st.violation('stream:own-reader-loses-framing:%s' % where, {'payload_lens': [a, b], 'segment_lens': [len(x) for x in segs[:6]],
